@@ -523,6 +523,21 @@ func platformNode(g *gen.Graph, id int, plat string) (int, bool) {
 	return 0, false
 }
 
+// archAbsent reports whether no entry of the index carries the platform's architecture.
+func archAbsent(g *gen.Graph, id int, plat string) bool {
+	parts := strings.Split(plat, "/")
+	m, err := la.Parse(g.Nodes[id].Content, g.Nodes[id].MT)
+	if err != nil || m.Kind != "index" || len(parts) < 2 {
+		return false
+	}
+	for _, d := range m.Manifests {
+		if d.Platform != nil && d.Platform.Architecture == parts[1] {
+			return false
+		}
+	}
+	return true
+}
+
 func isListMT(mt string) bool { return mt == la.MTOCIIndex || mt == la.MTD2List }
 
 // prePopulateTag chooses and writes the pre-state of one target tag for a source tag.
@@ -638,8 +653,14 @@ func genCase(idx int, rng *rand.Rand) *Case {
 	switch k := rng.Intn(100); {
 	case k < 30:
 		c.Platform = casePlatforms[rng.Intn(len(casePlatforms))]
-	case k < 33:
+	case k < 38:
 		c.Platform = "linux/riscv64" // never present: the run has to fail for every selected index
+	}
+	// every twelfth case: repository / registry entries that ask for a platform no index has, over a mix of
+	// single images (mirrored) and indexes (cannot be): the run must not report success
+	forcedAbsent := idx%12 == 7
+	if forcedAbsent {
+		c.Platform = "linux/riscv64"
 	}
 	// options first: they bias the population
 	c.Cfg.Parallel = []int{0, 1, 2, 3, 4}[rng.Intn(5)]
@@ -649,6 +670,10 @@ func genCase(idx int, rng *rand.Rand) *Case {
 	for k := 0; k < nEnt; k++ {
 		e := Entry{Type: types[rng.Intn(len(types))], Set: genSettings(rng, 0.3, c.Platform != "")}
 		if c.Platform != "" && rng.Intn(10) < 7 {
+			e.Platform = c.Platform
+		}
+		if forcedAbsent {
+			e.Type = []string{"repository", "registry"}[rng.Intn(2)]
 			e.Platform = c.Platform
 		}
 		c.Cfg.Entries = append(c.Cfg.Entries, e)
